@@ -1088,6 +1088,27 @@ pub fn run_l2(scn: &C10Scenario, stats: &mut RunStats) -> Vec<Violation> {
                 pending_renotify = renotify.clone();
             }
             Op::ConfigObject { .. } | Op::FailFastNext => {}
+            Op::TamperOutput { output, body, source } if started => {
+                // the output location is not watched: no event for the tampering itself
+                match body.as_ref().and_then(|b| b.bytes()) {
+                    Some(bytes) => fs.user_write(output, &bytes),
+                    None => {
+                        fs.user_remove(output);
+                    }
+                }
+                let until = now + TIMEOUT_MS + 2 * TICK_MS;
+                advance!(until, false);
+                now = until;
+                if !violations.is_empty() {
+                    break;
+                }
+                debounce.now = now;
+                let events = apply_op(&fs, &mut watches, &Op::Touch { path: source.clone() }, SaveStyle::InPlace);
+                for e in events {
+                    debounce.add_event(e, |p| fs.user_exists(&gen::normalize(&strip_cwd(p))));
+                }
+            }
+            Op::TamperOutput { .. } => {}
             other => {
                 if !started {
                     continue;
